@@ -4,8 +4,10 @@
          -> ``_write_message_batch`` and client half ``_dispatch_log_or_error`` -> ``RpcError.__init__``
          (json = transparent JSON-value carrier, Arrow metadata container = transparent mapping, so
          the message text stays symbolic): the ``RpcError`` raised from the metadata the server side
-         produced has ``error_type == type(exc).__name__``, ``str(exc)`` inside ``error_message`` and
-         exposes the error kind exactly when the exception class declared a ``str`` ``error_kind``.
+         produced has ``error_type == type(exc).__name__``, ``str(exc)`` inside ``error_message`` and,
+         for the typed framework errors, exposes the class's error kind (a token of the spec's
+         table); no kind is made up for a class that declares none.  Every kernel item is replayed
+         on a real error stream (real pyarrow / json / client reader).
 (b) xh : the same through the real dispatch sites of the socket server (``_serve_unary`` error path,
          stream init, first / later ``process`` step) with real pyarrow and real json; exception
          class, message and site are chosen by symbolic indices.
@@ -50,7 +52,9 @@ BOUNDS = (
 OUTSIDE = (
     "arbitrary code points in the message (f'{exc}' in from_exception realises a symbolic message under CrossHair, so the text is drawn from an alphabet); "
     "symbolic class names (a class cannot be given a symbolic __name__); chained exceptions (__cause__/__context__); the content of remote_traceback; "
-    "HTTP dispatch sites (_run_unary_sync / stream init / exchange turn) — only the response helpers are decided; traceback truncation boundary."
+    "HTTP dispatch sites under symbolic message text (they run with one concrete message per class through the real WSGI stack); traceback truncation boundary; "
+    "not C07 and therefore not judged: the error kind of user classes that declare an error_kind attribute of their own (emitting it is optional per WIRE_PROTOCOL), "
+    "request_id / remote_traceback of the RpcError, which outputs produced before the failure are still delivered, the exact value of the marker header, the status of successful responses, the content type."
 )
 ASSUMPTIONS = [
     "kernel items: json is a transparent carrier and the Arrow metadata container a transparent mapping (real json/pyarrow in the dispatch-site item and in every replay)",
@@ -109,6 +113,44 @@ def _declared_kind(cls: type):  # type: ignore[no-untyped-def]
 _WANT_KIND = tuple(_declared_kind(c) for c in _CLASSES)
 _NAMES = tuple(c.__name__ for c in _CLASSES)
 
+
+def _spec_kinds() -> frozenset:
+    """The well-known ``vgi_rpc.error_kind`` tokens, read from the normative table of WIRE_PROTOCOL.md (section Error kinds)."""
+    import os
+    import re
+
+    from engine.api import REPO
+
+    try:
+        with open(os.path.join(REPO, "docs", "WIRE_PROTOCOL.md"), encoding="utf-8") as fh:
+            text = fh.read()
+    except OSError:
+        return frozenset()
+    sec = text.split("### Error kinds", 1)[-1].split("\n### ", 1)[0]
+    return frozenset(re.findall(r"^\| `([a-z_]+)` \|", sec, flags=re.M))
+
+
+_SPEC_KINDS = _spec_kinds()
+# What C07 states about the kind ("carried and exposed for the typed framework errors"):
+#   EXACT  the typed framework errors: the client exposes the class's kind, a token of the spec table;
+#   NONE   a class that declares no error_kind at all: no kind is made up for it;
+#   FREE   user classes declaring an error_kind attribute of their own (str / "" / int / None): the
+#          spec leaves emitting a kind optional ("implementations that do not emit it remain conformant").
+_K_EXACT, _K_NONE, _K_FREE = 0, 1, 2
+_KIND_RULE = tuple(
+    _K_EXACT if c.__module__.startswith("vgi_rpc.") else (_K_FREE if hasattr(c, "error_kind") else _K_NONE) for c in _CLASSES
+)
+
+
+def _kind_verdict(ci: int, got) -> bool:  # type: ignore[no-untyped-def]
+    rule = _KIND_RULE[ci]
+    if rule == _K_EXACT:
+        want = _WANT_KIND[ci]
+        return isinstance(want, str) and want != "" and got == want and (not _SPEC_KINDS or want in _SPEC_KINDS)
+    if rule == _K_NONE:
+        return not got
+    return True
+
 # ---------------------------------------------------------------------------
 # (a) kernel round trip with symbolic message text
 # ---------------------------------------------------------------------------
@@ -126,6 +168,28 @@ class _MD:
                 return v
         return default
 
+    # the other read accessors of a mapping, so that md[key] / key in md / md.items() are the same model
+    def __getitem__(self, key):  # type: ignore[no-untyped-def]
+        for k, v in self._pairs:
+            if k == key:
+                return v
+        raise KeyError(key)
+
+    def __contains__(self, key) -> bool:  # type: ignore[no-untyped-def]
+        return any(k == key for k, _ in self._pairs)
+
+    def items(self):  # type: ignore[no-untyped-def]
+        return list(self._pairs)
+
+    def keys(self):  # type: ignore[no-untyped-def]
+        return [k for k, _ in self._pairs]
+
+    def __iter__(self):  # type: ignore[no-untyped-def]
+        return iter(self.keys())
+
+    def __len__(self) -> int:
+        return len(self._pairs)
+
     def __getattr__(self, name: str):  # pragma: no cover
         raise HarnessModelError("metadata stub touched through " + name)
 
@@ -138,11 +202,14 @@ class _TransparentJson:
 
     JSONDecodeError = _real_json.JSONDecodeError
 
-    def dumps(self, obj):  # type: ignore[no-untyped-def]
+    def dumps(self, obj, *a, **k):  # type: ignore[no-untyped-def]
+        # (formatting options such as default= / separators= / ensure_ascii= do not change the value carried)
         _T["obj"] = obj
         return "J"
 
-    def loads(self, text):  # type: ignore[no-untyped-def]
+    def loads(self, text, *a, **k):  # type: ignore[no-untyped-def]
+        if isinstance(text, (bytes, bytearray)):  # json.loads takes the UTF-8 bytes as well
+            text = bytes(text).decode()
         if text != "J" or _T["obj"] is None:
             raise _real_json.JSONDecodeError("not the token", "", 0)
         return dict(_T["obj"])
@@ -166,8 +233,14 @@ class _RecWriter:
     def __init__(self) -> None:
         self.written: list = []
 
-    def write_batch(self, batch, custom_metadata=None):  # type: ignore[no-untyped-def]
+    def write_batch(self, batch, custom_metadata=None, *a, **k):  # type: ignore[no-untyped-def]
         self.written.append((batch, custom_metadata))
+
+    def close(self) -> None:
+        pass
+
+    def __getattr__(self, name: str):  # pragma: no cover
+        raise HarnessModelError("ipc writer stub touched through " + name)
 
 
 _write_message_batch_rt = reglobalize(wire._write_message_batch, encode_metadata=_encode_md)
@@ -194,15 +267,14 @@ def _kernel(ci: int, msg: str, has_sid: bool):  # type: ignore[no-untyped-def]
     _T["obj"] = None
     w = _RecWriter()
     _write_error_batch_rt(w, _SCHEMA, exc, server_id="srv" if has_sid else None)
-    if len(w.written) != 1:
-        return exc, None, HarnessModelError("error batch count %d" % len(w.written))
-    batch, cm = w.written[0]
-    try:
-        _dispatch_rt(batch, cm, None)
-    except RpcError as e:
-        return exc, e, None
-    except Exception as e:  # noqa: BLE001
-        return exc, None, e
+    # the client reads what was written, in order, until a batch raises (how many batches carry the error is not C07's)
+    for batch, cm in w.written:
+        try:
+            _dispatch_rt(batch, cm, None)
+        except RpcError as e:
+            return exc, e, None
+        except Exception as e:  # noqa: BLE001
+            return exc, None, e
     return exc, None, None
 
 
@@ -218,7 +290,7 @@ def _faithful(ci: int, exc: BaseException, err) -> bool:  # type: ignore[no-unty
 
 
 def _kind_exposed(ci: int, err) -> bool:  # type: ignore[no-untyped-def]
-    return getattr(err, "error_kind", None) == _WANT_KIND[ci]
+    return _kind_verdict(ci, getattr(err, "error_kind", None))
 
 
 _NM = pick(3, 4)
@@ -228,7 +300,30 @@ _MESSAGES = ("", "x", "line one\nline two", "h\u00e9 \u2713 \U0001f600", "L" * 4
 _ATOMS = ("a", "\n", "\u00e9", "\u2713", "\U0001f600", "'")
 
 
-@cond(q=100, t=300, encoded=ENCODED, stubs=_RT_STUBS,
+def _replay_faithful(ci: int, msg: str, has_sid: bool) -> str | None:
+    """Un-stubbed: a real error stream (pyarrow, json) read by the real client reader; judged on what C07 states."""
+    exc = _CLASSES[ci](msg)
+    err, _ = _real_error_roundtrip(exc, "srv" if has_sid else None)
+    shown = msg if len(msg) <= 60 else msg[:60] + "..."
+    if err is None:
+        return "no RpcError raised from a real error stream for %s(%r)" % (_NAMES[ci], shown)
+    if err.error_type != _NAMES[ci]:
+        return "%s(%r) reached the client with error_type %r" % (_NAMES[ci], shown, err.error_type)
+    if str(exc) not in err.error_message:
+        return "%s(%r) reached the client with a message that does not carry the exception text: %r" % (_NAMES[ci], shown, err.error_message[:120])
+    return None
+
+
+def _replay_text(args: dict) -> str | None:
+    idx = (args["a0"], args["a1"], args["a2"], args["a3"])
+    return _replay_faithful(_TEXT_CLASSES[args["c3"]], "".join(_ATOMS[idx[i]] for i in range(args["n"])), True)
+
+
+def _replay_class(args: dict) -> str | None:
+    return _replay_faithful(args["ci"], _MESSAGES[args["mi"]], args["has_sid"])
+
+
+@cond(q=100, t=300, encoded=ENCODED, stubs=_RT_STUBS, replay=_replay_text, signature=lambda a, c: "C07:kernel:message-text-not-carried",
       bound="message = concatenation of <= %d atoms chosen by symbolic indices from %r, for ValueError / a user class with a kind / MethodNotImplementedError" % (_NM, _ATOMS))
 def error_message_text_roundtrip(c3: int, n: int, a0: int, a1: int, a2: int, a3: int) -> bool:
     """
@@ -248,7 +343,7 @@ def error_message_text_roundtrip(c3: int, n: int, a0: int, a1: int, a2: int, a3:
     return other is None and _faithful(ci, exc, err)
 
 
-@cond(q=60, t=120, encoded=ENCODED, stubs=_RT_STUBS,
+@cond(q=60, t=120, encoded=ENCODED, stubs=_RT_STUBS, replay=_replay_class, signature=lambda a, c: "C07:kernel:%s:not-faithful" % _NAMES[a["ci"]],
       bound="12 exception classes x 5 concrete messages (empty, 1 char, multi-line, non-ASCII, 40 000 chars) x server_id set or not")
 def error_class_roundtrip(ci: int, mi: int, has_sid: bool) -> bool:
     """
@@ -268,10 +363,10 @@ def error_class_roundtrip(ci: int, mi: int, has_sid: bool) -> bool:
 # ---------------------------------------------------------------------------
 
 
-def _real_error_roundtrip(exc: BaseException):  # type: ignore[no-untyped-def]
+def _real_error_roundtrip(exc: BaseException, server_id="srv"):  # type: ignore[no-untyped-def]
     """Un-stubbed: real error stream bytes (pyarrow, json), real client reader."""
     buf = BytesIO()
-    wire._write_error_stream(buf, _SCHEMA, exc, server_id="srv")
+    wire._write_error_stream(buf, _SCHEMA, exc, server_id=server_id)
     raw = buf.getvalue()
     on_wire = None
     rd0 = ipc.open_stream(BytesIO(raw))
@@ -289,18 +384,19 @@ def _real_error_roundtrip(exc: BaseException):  # type: ignore[no-untyped-def]
 def _replay_kind(args: dict) -> str | None:
     ci = args["ci"]
     exc = _CLASSES[ci]("boom")
-    err, on_wire = _real_error_roundtrip(exc)
+    err, on_wire = _real_error_roundtrip(exc, "srv" if args.get("has_sid", True) else None)
     if err is None:
         return "no RpcError raised from a real error stream for %s" % _NAMES[ci]
     got = getattr(err, "error_kind", None)
-    if got != _WANT_KIND[ci]:
-        return "%s declares error_kind=%r; the wire carries vgi_rpc.error_kind=%r; the client's RpcError exposes %r (attributes: %s)" % (
-            _NAMES[ci], _WANT_KIND[ci], on_wire, got, sorted(vars(err)))
+    if not _kind_verdict(ci, got):
+        return "%s declares error_kind=%r (well-known kinds of the spec: %s); the wire carries vgi_rpc.error_kind=%r; the client's RpcError exposes %r (attributes: %s)" % (
+            _NAMES[ci], getattr(_CLASSES[ci], "error_kind", "<no attribute>"), sorted(_SPEC_KINDS), on_wire, got, sorted(vars(err)))
     return None
 
 
-@cond(q=30, t=60, encoded=ENCODED, stubs=_RT_STUBS, replay=_replay_kind, signature=lambda a, c: "C07:rpcerror:error-kind-not-exposed",
-      bound="12 exception classes (4 typed framework errors, user classes declaring a str / empty str / int / None kind, 4 without) x server_id set or not")
+@cond(q=30, t=60, encoded=ENCODED, stubs=_RT_STUBS, replay=_replay_kind,
+      signature=lambda a, c: "C07:rpcerror:error-kind-not-exposed" if _KIND_RULE[a["ci"]] == _K_EXACT else "C07:rpcerror:error-kind-made-up",
+      bound="the 4 typed framework errors: the RpcError exposes the class's kind (a token of the spec's table); the 4 classes declaring no error_kind: no kind exposed; user classes declaring a str / empty str / int / None kind: run, kind not judged (optional per spec); x server_id set or not")
 def error_kind_exposed_iff_declared(ci: int, has_sid: bool) -> bool:
     """
     pre: 0 <= ci <= 11
@@ -344,17 +440,32 @@ class _Resp:
         raise HarnessModelError("response stub touched through " + name)
 
 
+def _status_code(status) -> int:  # type: ignore[no-untyped-def]
+    """The numeric code of whatever form of status the helper stored ('200', '200 OK', 200, HTTPStatus.OK)."""
+    if isinstance(status, int):
+        return int(status)
+    head = str(status).split()
+    if not head or not head[0].isdigit():
+        raise HarnessModelError("response status in a form the harness does not read: %r" % (status,))
+    return int(head[0])
+
+
 def _replay_status(args: dict) -> str | None:
     import falcon
 
     st = _STATUSES[args["si"]]
     r = falcon.Response()
-    resp_mod._set_error_response(r, ValueError("boom"), status_code=st, server_id="srv")
+    if args.get("with_body", True):
+        resp_mod._set_error_response(r, ValueError("boom"), status_code=st, server_id="srv")
+    else:
+        resp_mod._set_http_status(r, st)
     marker = r.get_header(RPC_ERROR_HEADER)
-    code = int(str(r.status).split()[0])
+    code = _status_code(r.status)
     want_code, want_marker = (200, True) if st == HTTPStatus.INTERNAL_SERVER_ERROR else (st.value, False)
     if code != want_code or (marker is not None) != want_marker:
         return "status %s answered as %s with marker header %r" % (st.value, r.status, marker)
+    if not args.get("with_body", True):
+        return None
     rd = ValidatedReader(ipc.open_stream(BytesIO(r.stream.getvalue())), IpcValidation.FULL)
     try:
         wire._read_batch_with_log_check(rd, None)
@@ -383,15 +494,14 @@ def http_status_marker(si: int, with_body: bool) -> bool:
     except Exception:  # noqa: BLE001
         return False
     marker = r.headers.get(RPC_ERROR_HEADER.lower())
+    code = _status_code(r.status)
     if st == HTTPStatus.INTERNAL_SERVER_ERROR:
-        if r.status != "200" or marker != "true":
+        if code != 200 or marker is None:  # status 200 with the error marker header
             return False
     else:
-        if marker is not None or r.status != str(st.value):
+        if marker is not None or code != st.value:
             return False
     if with_body:
-        if r.content_type != _ARROW_CONTENT_TYPE:
-            return False
         rd = ValidatedReader(ipc.open_stream(BytesIO(r.stream.getvalue())), IpcValidation.FULL)
         try:
             wire._read_batch_with_log_check(rd, None)
@@ -521,18 +631,49 @@ def _site_ok(ci: int, msg: str, site: int, real: bool) -> bool:
         exc, data, logs, err = _site_run(ci, msg, site, real)
     except Exception:  # noqa: BLE001
         return False
-    if err is None or err.error_type != _SITE_NAMES_CLS[ci] or str(exc) not in err.error_message:
-        return False
-    if err.request_id is None or not isinstance(err.remote_traceback, str):
-        return False
-    if site == _SITE_LATER_STEP:
-        return len(data) == 1 and data[0].equals(_DATA) and len(logs) == 1 and logs[0].message == "before the failure"
-    return data == [] and logs == []
+    # C07: an RPC error whose type is the class name and whose message carries the text.  (What else the
+    # error object holds, and which outputs produced before the failure are still delivered, is not C07's.)
+    return not (err is None or err.error_type != _SITE_NAMES_CLS[ci] or str(exc) not in err.error_message)
+
+
+_SOCKET_SITE_NAMES = ("unary", "stream_init", "first_process", "later_process")
 
 
 def _replay_site(args: dict) -> str | None:
-    ok = _site_ok(args["ci"], _MESSAGES[1 if QUICK else args["mi"]], args["site"], real=True)
-    return None if ok else "error raised by the implementation (class %s, site %d) did not reach the client as a faithful RpcError" % (_SITE_NAMES_CLS[args["ci"]], args["site"])
+    """Un-stubbed, through the server's entry point: a real request (written by the real client-side
+    ``_write_request``) served by ``RpcServer.serve_one``; the response read by the real client reader."""
+    ci, site = args["ci"], args["site"]
+    exc = _SITE_CLASSES[ci](_MESSAGES[1 if QUICK else args["mi"]])
+    _S["exc"] = exc
+    _S["site"] = site
+    _S["step"] = 0
+    method = "u" if site == _SITE_UNARY else "gen"
+    req = BytesIO()
+    wire._write_request(req, method, _SERVER._methods[method].params_schema, {})
+    tr = _MemTransport(req.getvalue() + (b"" if site == _SITE_UNARY else _TICKS))
+    escaped = None
+    try:
+        _SERVER.serve_one(tr)
+    except Exception as e:  # noqa: BLE001
+        escaped = e
+    err = None
+    how = "the response stream ended without an error batch"
+    try:
+        rd = ValidatedReader(ipc.open_stream(BytesIO(tr.writer.getvalue())), IpcValidation.FULL)
+        while True:
+            wire._read_batch_with_log_check(rd, None)
+    except StopIteration:
+        pass
+    except RpcError as e:
+        err = e
+    except Exception as e:  # noqa: BLE001
+        how = "the response could not be read (%r)" % e
+    who = "%s(%r) raised by the implementation at socket site '%s'" % (_SITE_NAMES_CLS[ci], str(exc)[:40], _SOCKET_SITE_NAMES[site])
+    if err is None:
+        return "%s did not reach the client as an RPC error: %s%s" % (who, how, "; serve_one let %r escape" % escaped if escaped is not None else "")
+    if err.error_type != _SITE_NAMES_CLS[ci] or str(exc) not in err.error_message:
+        return "%s reached the client as %s: %s" % (who, err.error_type, err.error_message[:120])
+    return None
 
 
 _MI = pick(0, 3)
@@ -563,7 +704,7 @@ _SITE_NAMES_CLS = tuple(c.__name__ for c in _SITE_CLASSES)
 
 
 @cond(q=100, t=300, encoded=[srv.RpcServer._serve_unary, srv.RpcServer._serve_stream] + ENCODED, replay=_replay_site,
-      stubs=["time.monotonic := concrete counter (access-log duration only)"], signature=lambda a, c: "C07:dispatch-site:error-not-faithful",
+      stubs=["time.monotonic := concrete counter (access-log duration only)"], signature=lambda a, c: "C07:dispatch-site:%s:%s:error-not-faithful" % (_SOCKET_SITE_NAMES[a["site"]], _SITE_NAMES_CLS[a["ci"]]),
       bound="24 exception classes (the 12 kernel classes + OSError and its connection subclasses, TimeoutError, EOFError, StopIteration, ArrowInvalid, KeyError, a TypeError subclass) x %d concrete messages x 4 socket dispatch sites (unary, stream init, first process step, later step after a log and a data batch); real pyarrow and json" % (_MI + 1))
 def error_at_dispatch_sites(ci: int, mi: int, site: int) -> bool:
     """
@@ -729,11 +870,11 @@ def _http_site(ci: int, site: int) -> str | None:
     if err.error_type != cls.__name__ or str(exc) not in err.error_message:
         return "client saw %s: %s for a raised %s(%r)" % (err.error_type, err.error_message[:80], cls.__name__, str(exc))
     url, status, marker = client.log[-1]
-    if status != 200 or marker != "true":
-        return "%s raised at HTTP site %d was answered with status %s, X-VGI-RPC-Error=%r on %s (expected 200 + 'true')" % (cls.__name__, site, status, marker, url)
+    if status != 200 or marker is None:
+        return "%s raised at HTTP site %d was answered with status %s, X-VGI-RPC-Error=%r on %s (expected 200 + the marker header)" % (cls.__name__, site, status, marker, url)
     for url, status, marker in good:
-        if status != 200 or marker is not None:
-            return "successful response %s carried status %s / marker %r" % (url, status, marker)
+        if marker is not None:  # "a successful response never carries that marker"
+            return "successful response %s (status %s) carried the error marker %r" % (url, status, marker)
     return None
 
 
@@ -819,6 +960,7 @@ _SITE_NAMES = ("unary", "stream_init", "first_produce", "later_produce", "first_
 
 def _make_http_item(site: int):  # type: ignore[no-untyped-def]
     def replay(args: dict) -> str | None:
+        _warm_up_untraced()
         return _http_site(args["ci"], site)
 
     def item(ci: int) -> bool:
@@ -826,13 +968,15 @@ def _make_http_item(site: int):  # type: ignore[no-untyped-def]
         pre: 0 <= ci < len(_HTTP_CLASSES)
         post: _
         """
+        _warm_up_untraced()
         try:
             return _with_stub_clock(_http_site, _concrete(ci, len(_HTTP_CLASSES)), site) is None
         except Exception:  # noqa: BLE001
             return False
 
     item.__name__ = item.__qualname__ = "http_error_at_" + _SITE_NAMES[site]
-    return cond(q=100, t=240, encoded=_HTTP_ENCODED, stubs=_HTTP_STUBS, replay=replay, signature=lambda a, c: "C07:http-site:%s:error-not-200-with-marker" % _SITE_NAMES[site],
+    return cond(q=100, t=240, encoded=_HTTP_ENCODED, stubs=_HTTP_STUBS, replay=replay,
+                signature=lambda a, c: "C07:http-site:%s:%s:error-not-200-with-marker" % (_SITE_NAMES[site], _HTTP_CLASSES[a["ci"]].__name__),
                 bound="HTTP site '%s' x %d exception classes (TypeError and a subclass, ArrowInvalid, StopIteration, KeyError and a subclass, VersionError, typed framework errors, ...); real falcon WSGI stack, tokens, pyarrow, json" % (_SITE_NAMES[site], len(_HTTP_CLASSES)))(item)
 
 
@@ -847,6 +991,28 @@ http_error_at_later_exchange = _make_http_item(_H_EXCHANGE_LATER)
 
 # Warm-up outside tracing: PyCryptodome's cffi accessors are created lazily on first use and that
 # creation path does not survive CrossHair's tracer; one concrete run of each streaming scenario
-# populates them (and falcon's lazily compiled router) before any symbolic run.
-for _site in (_H_UNARY, _H_PRODUCE_LATER, _H_EXCHANGE_LATER):
-    _http_site(0, _site)
+# populates them (and falcon's lazily compiled router) before any symbolic run.  Done on the first
+# use of an HTTP item (not at import: the kernel items need no HTTP stack, and a failing HTTP stack
+# must not turn them into harness errors).
+_WARM: dict = {"done": False}
+
+
+def _warm_up() -> None:
+    if _WARM["done"]:
+        return
+    _WARM["done"] = True
+    for s in (_H_UNARY, _H_PRODUCE_LATER, _H_EXCHANGE_LATER):
+        _http_site(0, s)
+
+
+def _warm_up_untraced() -> None:
+    if _WARM["done"]:
+        return
+    try:
+        from crosshair.tracers import NoTracing, is_tracing
+    except ImportError:  # pragma: no cover
+        return _warm_up()
+    if not is_tracing():
+        return _warm_up()
+    with NoTracing():
+        _warm_up()
